@@ -48,6 +48,10 @@ int main(int argc, char **argv)
     auto validator = Validator::create();
     validator->validateModel(model);
     auto analyser = Analyser::create();
+    for (int i = 3; i + 1 < argc; i += 2) {   // external variables: <component> <variable> pairs
+        auto c = model->component(argv[i], true);
+        if (c != nullptr && c->variable(argv[i + 1]) != nullptr) analyser->addExternalVariable(AnalyserExternalVariable::create(c->variable(argv[i + 1])));
+    }
     analyser->analyseModel(model);
     auto am = analyser->model();
     std::cout << "=====INFO\n";
